@@ -167,7 +167,8 @@ def cmd_shard(prop: str, tier: str, verif_seed: int, shard: int, out: str) -> in
             t_run = time.time()  # measured outside the run; reported only, never logged into a digest
             res = execute_isolated(mod, program)
             rec = {
-                "env": f"PYTHONHASHSEED={os.environ.get('PYTHONHASHSEED')} text-encoding={locale.getencoding()}",
+                "env": f"PYTHONHASHSEED={os.environ.get('PYTHONHASHSEED')} text-encoding={locale.getencoding()} "
+                       f"optimize={sys.flags.optimize}",
                 "wall_ms": int((time.time() - t_run) * 1000),
                 "i": i,
                 "seed": seed,
@@ -301,14 +302,19 @@ def hashseed_for(mod, shard: int) -> str:
     hs = str(shard + 1) if getattr(mod, "HASHSEED_VARIES", False) else "0"
     if getattr(mod, "LOCALE_VARIES", False) and shard % 16 >= 13:
         hs += ":ascii"
+    if shard % 16 == 12:
+        hs += ":opt"  # an optimised interpreter (python -O / PYTHONOPTIMIZE=1): `assert` statements are compiled away
     return hs
 
 
 def spawn(args: list[str], hashseed: str, timeout_s: int, **kw) -> subprocess.Popen:
     env = dict(os.environ)
-    hashseed, _, loc = str(hashseed).partition(":")
-    if loc == "ascii":
+    hashseed, _, tags = str(hashseed).partition(":")
+    if "ascii" in tags.split(":"):
         env.update(LC_ALL="C", LANG="C", PYTHONUTF8="0", PYTHONCOERCECLOCALE="0")
+    env.pop("PYTHONOPTIMIZE", None)
+    if "opt" in tags.split(":"):
+        env["PYTHONOPTIMIZE"] = "1"
     env["PYTHONHASHSEED"] = hashseed
     env["PYTHONDONTWRITEBYTECODE"] = "1"
     env.setdefault("OMP_NUM_THREADS", "1")
